@@ -200,8 +200,9 @@ let search_tr tn conns ans env want =
   let budget = ref 30000 in
   let rec go s bind preq pans =
     let k = key s bind preq pans in
-    if Hashtbl.mem visited k || !budget <= 0 then false
+    if Hashtbl.mem visited k then false
     else begin
+      if !budget <= 0 then raise Exit;
       Hashtbl.add visited k (); decr budget;
       if final s preq pans then true
       else begin
@@ -231,7 +232,10 @@ let search_tr tn conns ans env want =
                                                 | None -> not (List.exists (fun (_, j') -> j' = j) bind)) in
                   bound_ok && pos preq j < List.length (jreq j) && List.nth (jreq j) (pos preq j) = r &&
                   try_l (CWrite (nat c, true)) ((c, j) :: List.remove_assoc c bind) (setpos preq j (pos preq j + 1)) pans
-                | None -> false)
+                | None ->
+                  (* written, but the connection was torn down before the broker journaled it:
+                     only acceptable for a call that ended with an error *)
+                  wantc.(r) = 3 && same (CWrite (nat c, true)))
                || (allow_f && same (CWrite (nat c, false)))
              | _ -> false)
             || (match jb with
@@ -247,7 +251,8 @@ let search_tr tn conns ans env want =
             || (allow_f && same (CReadFail (nat c)))
             || same (CRelease (nat c))
             || (allow_i && same (IdleTimer (nat c)))) conns_l
-        || (allow_i && List.exists (fun g -> same (CloseIdle (nat g))) [0; 1])
+        || (allow_i && List.exists (fun g ->
+              (not (List.exists (fun x -> int_of_nat x = g) s.gclosed)) && same (CloseIdle (nat g))) [0; 1])
       end
     end in
   (* connections opened (and released) before the scenario: the pool was warmed up *)
@@ -257,8 +262,10 @@ let search_tr tn conns ans env want =
         match pstep s (ConnectOrphan (nat (100 + n), nat g)) with
         | Some s' -> (s', n + 1) | None -> (s, n + 1)) (pinit, 0) ws in
     fst s in
-  if List.exists (fun ws -> Hashtbl.reset visited; budget := 30000; go (start ws) [] [] []) warm_sets
-  then want ^ " own" else "NORUN"
+  let exhausted = ref false in
+  if List.exists (fun ws -> Hashtbl.reset visited; budget := 1500000;
+                   try go (start ws) [] [] [] with Exit -> (exhausted := true; false)) warm_sets
+  then want ^ " own" else if !exhausted then "NORUN-BUDGET" else "NORUN"
 
 (* ------------------------------------------------------------------ av *)
 let av_prefix = [ Enter (nat 1, KApiVersions); LockW (nat 1); Send (nat 1, true, true); Arrive (nat 1);
